@@ -214,12 +214,12 @@ def continuum_key(c):
 # dissimilarities
 # --------------------------------------------------------------------------
 _DISSIM_CACHE = {}
-_DISSIM_CACHE_MAX = 200
+_DISSIM_CACHE_MAX = 320
 
 
 def gen_dissim(ch, labelset="alpha", *, combined_only=False, kinds=None):
     # dyadic values and values that are not exactly representable in float32 (rounding at the pruning bound)
-    de = ch.choice([0.5, 1.0, 1.0, 1.5, 2.0, 0.1, 0.3, 0.7, 1.1, 1.7])
+    de = ch.choice([0.5, 1.0, 1.0, 1.0, 1.5, 2.0, 0.1, 0.2, 0.3, 0.4, 0.7, 0.8, 0.9, 1.1, 1.3, 1.7])
     if not combined_only and ch.coin(0.3):
         return {"kind": "pos", "delta_empty": de}
     if kinds is None:
